@@ -12,6 +12,9 @@ DivInt == {-2, -1, 1, 2, 3}
 DivUns == {1, 2, 3}
 DivFlt == {-1, 1, 2}
 Empty == {}
+DomIntT == -4..10
+DomUnsT == 0..10
+DomFltT == -12..12
 HalvesInt == {-1, 1, 3}
 HalvesUns == {1, 3}
 ====
